@@ -192,4 +192,176 @@ theorem dwm_fired_step {α} (raises : Nat → α → Option Err) (s : DwmSt α) 
         simp only [dwmStep, hf, dwmFinish]
         exact ⟨hk, fun p hp => hn p (List.mem_filter.1 hp).1⟩
 
+/-! ### delay_with_mapper: the code against the history rule -/
+
+def DwmRel {α} (s : DwmSt α) (a : DwmAbs α) : Prop :=
+  s.delays = a.seen.filter (fun p => !a.fired.contains p.1) ∧ s.atEnd = a.atEnd ∧ s.subLive = a.subLive ∧
+    s.srcLive = a.srcLive ∧ s.count = a.count ∧ s.done = a.done
+
+theorem filter_not_isEmpty {β} (c : β → Bool) (l : List β) : (l.filter (fun p => !c p)).isEmpty = l.all c := by
+  induction l with
+  | nil => rfl
+  | cons x l ih => cases h : c x <;> simp [List.filter_cons, h, ih]
+
+theorem find_congr {β} (p q : β → Bool) (l : List β) (h : ∀ x ∈ l, p x = q x) : l.find? p = l.find? q := by
+  induction l with
+  | nil => rfl
+  | cons x l ih =>
+    simp only [List.find?_cons, h x (List.mem_cons_self ..), ih (fun y hy => h y (List.mem_cons_of_mem _ hy))]
+
+theorem find_filter_fired {α} (fired : List Nat) (k : Nat) (seen : List (Nat × α)) :
+    (seen.filter (fun p => !fired.contains p.1)).find? (fun p => p.1 == k)
+      = if fired.contains k then none else seen.find? (fun p => p.1 == k) := by
+  rw [List.find?_filter]
+  cases hf : fired.contains k
+  · simp only [Bool.false_eq_true, if_false]
+    apply find_congr
+    intro p _
+    cases hp : (p.1 == k)
+    · simp
+    · have : p.1 = k := by simpa using hp
+      rw [this, hf]; rfl
+  · simp only [if_true]
+    rw [List.find?_eq_none]
+    intro p _
+    cases hp : (p.1 == k)
+    · simp
+    · have : p.1 = k := by simpa using hp
+      rw [this, hf]; simp
+
+theorem filter_fire {α} (fired : List Nat) (k : Nat) (seen : List (Nat × α)) :
+    (seen.filter (fun p => !fired.contains p.1)).filter (fun p => !(p.1 == k))
+      = seen.filter (fun p => !(k :: fired).contains p.1) := by
+  rw [List.filter_filter]
+  apply List.filter_congr
+  intro p _
+  rw [List.contains_cons]
+  cases (p.1 == k) <;> cases fired.contains p.1 <;> rfl
+
+theorem dwm_finish_sim {α} (s : DwmSt α) (a : DwmAbs α) (o : List (Notif α)) (h : DwmRel s a) :
+    (dwmFinish s o).out = (dwmAbsFinish a o).out ∧ (dwmFinish s o).switch = (dwmAbsFinish a o).switch
+      ∧ DwmRel (dwmFinish s o).st (dwmAbsFinish a o).st := by
+  obtain ⟨h1, h2, h3, h4, h5, h6⟩ := h
+  have hd : dwmDone s = dwmAbsDone a := by
+    unfold dwmDone dwmAbsDone
+    rw [h1, filter_not_isEmpty, h2]
+  refine ⟨by simp [dwmFinish, dwmAbsFinish, hd], rfl, ?_⟩
+  exact ⟨h1, h2, h3, h4, h5, by simp [dwmFinish, dwmAbsFinish, hd, h6]⟩
+
+theorem dwm_step_sim {α} (raises : Nat → α → Option Err) (s : DwmSt α) (a : DwmAbs α) (ev : MEv α) (h : DwmRel s a)
+    (hfc : ∀ k ∈ a.fired, k < a.count) :
+    (dwmStep raises s ev).out = (dwmAbsStep raises a ev).out ∧ (dwmStep raises s ev).switch = (dwmAbsStep raises a ev).switch
+      ∧ DwmRel (dwmStep raises s ev).st (dwmAbsStep raises a ev).st := by
+  have h0 := h
+  obtain ⟨h1, h2, h3, h4, h5, h6⟩ := h
+  cases ev with
+  | sub sg =>
+    cases hl : a.subLive
+    · have hl' : s.subLive = false := by rw [h3]; exact hl
+      simp only [dwmStep, dwmAbsStep, hl, hl', Bool.false_eq_true, if_false]; first | exact ⟨rfl, rfl, h0⟩ | exact ⟨trivial, trivial, h0⟩
+    · have hl' : s.subLive = true := by rw [h3]; exact hl
+      cases sg <;> simp [dwmStep, dwmAbsStep, hl, hl', DwmRel, h1, h2, h4, h5, h6]
+  | src n =>
+    cases hl : a.srcLive
+    · have hl' : s.srcLive = false := by rw [h4]; exact hl
+      simp only [dwmStep, dwmAbsStep, hl, hl', Bool.false_eq_true, if_false]; first | exact ⟨rfl, rfl, h0⟩ | exact ⟨trivial, trivial, h0⟩
+    · have hl' : s.srcLive = true := by rw [h4]; exact hl
+      cases n with
+      | next x =>
+        have hnf : a.fired.contains a.count = false := by
+          cases hcc : a.fired.contains a.count
+          · rfl
+          · have := hfc a.count (by simpa using hcc); omega
+        cases hr : raises a.count x with
+        | some e => simp [dwmStep, dwmAbsStep, hl, hl', h5, hr, DwmRel, h1, h2, h3, h6]
+        | none =>
+          simp only [dwmStep, dwmAbsStep, hl, hl', if_true, h5, hr]
+          have e : (a.seen ++ [(a.count, x)]).filter (fun p => !a.fired.contains p.1)
+              = a.seen.filter (fun p => !a.fired.contains p.1) ++ [(a.count, x)] := by
+            simp only [List.filter_append, List.filter_cons, hnf, Bool.not_false, if_true, List.filter_nil]
+          refine ⟨by trivial, by trivial, ?_⟩
+          exact ⟨by rw [e, ← h1], h2, h3, rfl, rfl, h6⟩
+      | error e => simp [dwmStep, dwmAbsStep, hl, hl', DwmRel, h1, h2, h3, h5]
+      | completed =>
+        simp only [dwmStep, dwmAbsStep, hl, hl', if_true]
+        exact dwm_finish_sim _ _ [] ⟨h1, rfl, h3, rfl, h5, h6⟩
+  | inner k sig =>
+    simp only [dwmStep, dwmAbsStep, h1, find_filter_fired]
+    cases hf : a.fired.contains k
+    · simp only [Bool.false_eq_true, if_false]
+      cases hfind : a.seen.find? (fun p => p.1 == k) with
+      | none => first | exact ⟨rfl, rfl, h0⟩ | exact ⟨trivial, trivial, h0⟩
+      | some kx =>
+        obtain ⟨k', x⟩ := kx
+        cases sig with
+        | error e => simp [DwmRel, h2, h3, h4, h5]
+        | next => exact dwm_finish_sim _ _ _ ⟨filter_fire a.fired k a.seen, h2, h3, h4, h5, h6⟩
+        | completed => exact dwm_finish_sim _ _ _ ⟨filter_fire a.fired k a.seen, h2, h3, h4, h5, h6⟩
+    · simp only [if_true]
+      first | exact ⟨rfl, rfl, h0⟩ | exact ⟨trivial, trivial, h0⟩
+
+/-- ordinals in the history are ordinals of elements already seen -/
+def DwmAbsOk {α} (a : DwmAbs α) : Prop := (∀ p ∈ a.seen, p.1 < a.count) ∧ (∀ k ∈ a.fired, k < a.count)
+
+theorem dwm_abs_ok_step {α} (raises : Nat → α → Option Err) (a : DwmAbs α) (ev : MEv α) (h : DwmAbsOk a) :
+    DwmAbsOk (dwmAbsStep raises a ev).st := by
+  obtain ⟨hs, hf⟩ := h
+  cases ev with
+  | sub sg =>
+    cases hl : a.subLive <;> cases sg <;> simp only [dwmAbsStep, hl, if_true, if_false, Bool.false_eq_true] <;> exact ⟨hs, hf⟩
+  | src n =>
+    cases hl : a.srcLive
+    · simp only [dwmAbsStep, hl, if_false, Bool.false_eq_true]; exact ⟨hs, hf⟩
+    · cases n with
+      | next x =>
+        cases hr : raises a.count x with
+        | some e =>
+          simp only [dwmAbsStep, hl, hr, if_true]
+          exact ⟨fun p hp => Nat.lt_succ_of_lt (hs p hp), fun k hk => Nat.lt_succ_of_lt (hf k hk)⟩
+        | none =>
+          simp only [dwmAbsStep, hl, hr, if_true]
+          refine ⟨?_, fun k hk => Nat.lt_succ_of_lt (hf k hk)⟩
+          intro p hp
+          rcases List.mem_append.1 hp with hm | hm
+          · exact Nat.lt_succ_of_lt (hs p hm)
+          · rw [List.mem_singleton] at hm; subst hm; exact Nat.lt_succ_self _
+      | error e => simp only [dwmAbsStep, hl, if_true]; exact ⟨hs, hf⟩
+      | completed => simp only [dwmAbsStep, hl, if_true, dwmAbsFinish]; exact ⟨hs, hf⟩
+  | inner k sig =>
+    cases hc : a.fired.contains k
+    · cases hfind : a.seen.find? (fun p => p.1 == k) with
+      | none => simp only [dwmAbsStep, hc, hfind, Bool.false_eq_true, if_false]; exact ⟨hs, hf⟩
+      | some kx =>
+        obtain ⟨k', x⟩ := kx
+        have hk' : k' = k := by have := List.find?_some hfind; simpa using this
+        have hlt : k < a.count := by have := hs _ (List.mem_of_find?_eq_some hfind); rw [← hk']; exact this
+        cases sig with
+        | error e => simp only [dwmAbsStep, hc, hfind, Bool.false_eq_true, if_false]; exact ⟨hs, hf⟩
+        | next =>
+          simp only [dwmAbsStep, hc, hfind, Bool.false_eq_true, if_false, dwmAbsFinish]
+          refine ⟨hs, ?_⟩
+          intro j hj
+          rcases List.mem_cons.1 hj with rfl | hj
+          · exact hlt
+          · exact hf j hj
+        | completed =>
+          simp only [dwmAbsStep, hc, hfind, Bool.false_eq_true, if_false, dwmAbsFinish]
+          refine ⟨hs, ?_⟩
+          intro j hj
+          rcases List.mem_cons.1 hj with rfl | hj
+          · exact hlt
+          · exact hf j hj
+    · simp only [dwmAbsStep, hc, if_true]; exact ⟨hs, hf⟩
+
+theorem dwm_run_eq_spec {α} (raises : Nat → α → Option Err) (hasSubDelay : Bool) (tr : List (Nat × MEv α)) :
+    dwmRun raises hasSubDelay tr = dwmSpec raises hasSubDelay tr := by
+  unfold dwmRun dwmSpec
+  apply runTrace_sim (dwmStep raises) (dwmAbsStep raises) (·.done) (·.done) (fun _ => [])
+    (fun s a => DwmRel s a ∧ DwmAbsOk a)
+  · intro s a h; exact h.1.2.2.2.2.2
+  · intro s a ev h _
+    obtain ⟨h1, h2, h3⟩ := dwm_step_sim raises s a ev h.1 h.2.2
+    exact ⟨h1, h2, h3, dwm_abs_ok_step raises a ev h.2⟩
+  · cases hasSubDelay <;> simp [dwmInit, dwmAbsInit, DwmRel, DwmAbsOk]
+
 end Timed
